@@ -1,6 +1,7 @@
 package main
 
 import (
+	"fmt"
 	"sort"
 	"strings"
 
@@ -9,11 +10,11 @@ import (
 
 func init() {
 	register(&Property{
-		ID:    "C04",
-		Level: "other",
-		Run:   c04,
+		ID:          "C04",
+		Level:       "other",
+		Run:         c04,
 		Explanation: "The from-scratch checksum is a function of file bytes and cannot be computed statically; decided instead is that the incremental cache is updated wherever the bytes change and only consistently: every file write/truncate site in package litefs is enumerated against the confirmed table; each database page write is followed by the page-checksum update with the same page number and data and each database truncate by the reset beyond the new size; the cache fields are written only by their three owners and the page store is unconditionally followed by the block-cache clear; the lock page always has checksum 0; all accesses happen under chksums.mu (directly or in the six 'must hold' helpers, whose call sites are inside locked regions); the empty checksum; the aggregation guards (cached block only when not overridden and non-zero, page loop bounded by pageN, missing page = error, overridden blocks marked for every WAL-resident or truncated page within range, index bounds); the block arithmetic; ownership and lookup order of the WAL overlay; and the two verification points (post-apply comparison, snapshot self-check).",
-		NotDecided: "numerical equality with CRC64 over the actual bytes; that initDatabaseFile read what is on disk.",
+		NotDecided:  "numerical equality with CRC64 over the actual bytes; that initDatabaseFile read what is on disk.",
 		Assumptions: []string{"go/ssa faithfully represents the source", "ltx.ChecksumPage is CRC64-ISO(pgno, bytes) with the flag bit"},
 	})
 }
@@ -247,9 +248,35 @@ func (c *Ctx) snapshotSelfCheck(key string) {
 func (c *Ctx) overrideMarking(key string) {
 	p := c.P
 	ign := "make([]bool, (litefs.pageChksumBlock(p1) + 1))"
-	c.OnlyGuards(key, "litefs.(*DB).checksum", p.IndexStoreOn(pat(ign)), []*Guard{
-		GP("(0 == p1)", false), GP("rangeok(p0.wal.chksums)", true), GP("rangeok(p0.wal.chksums)", false), GP("rangeok(p2)", true),
-		GP("(litefs.pageChksumBlock(rangekey(@@)) < (litefs.pageChksumBlock(p1) + 1))", true),
-	}, 2, "every block (within the new size) that contains a page of the committed WAL overlay or of the in-progress overlay - including pages recorded as truncated - is marked overridden; the only condition is that the block is within range",
-		"a truncated page shares its block with surviving pages: if that block is not marked, the cached aggregate (which still includes the truncated pages of the database file) is used and the reported checksum covers removed pages")
+	desc := "every block (within the new size) that contains a page of the committed WAL overlay or of the in-progress overlay - including pages recorded as truncated - is marked overridden; the only condition is that the block is within range"
+	why := "a truncated page shares its block with surviving pages: if that block is not marked, the cached aggregate (which still includes the truncated pages of the database file) is used and the reported checksum covers removed pages"
+	inRange := func(src string, v bool) *Guard {
+		return GP("(litefs.pageChksumBlock(rangekey("+src+")) < (litefs.pageChksumBlock(p1) + 1))", v)
+	}
+	all := p.IndexStoreOn(pat(ign))
+	of := func(src string) IM {
+		return func(in ssa.Instruction) bool {
+			if !all(in) {
+				return false
+			}
+			st, ok := in.(*ssa.Store)
+			if !ok {
+				return false
+			}
+			ia, ok := st.Addr.(*ssa.IndexAddr)
+			return ok && strings.Contains(p.Render(ia.Index), "rangekey("+src+")")
+		}
+	}
+	// first loop: committed overlay
+	c.OnlyGuards(key+"/committed", "litefs.(*DB).checksum", of("p0.wal.chksums"), []*Guard{
+		GP("(0 == p1)", false), GP("rangeok(p0.wal.chksums)", true), inRange("p0.wal.chksums", true),
+	}, 1, desc+" (committed overlay)", why)
+	// second loop: in-progress overlay; what the first loop did with its own keys is irrelevant here
+	c.OnlyGuards(key+"/in-progress", "litefs.(*DB).checksum", of("p2"), []*Guard{
+		GP("(0 == p1)", false), GP("rangeok(p0.wal.chksums)", true), GP("rangeok(p0.wal.chksums)", false), inRange("p0.wal.chksums", true), inRange("p0.wal.chksums", false),
+		GP("rangeok(p2)", true), inRange("p2", true),
+	}, 1, desc+" (in-progress overlay)", why)
+	if n := len(Instrs(c.F("litefs.(*DB).checksum"), all)); n != 2 {
+		c.fail(key+"/sites", "K2 OnlyGuards (path enumeration)", "exactly the two overlay loops mark blocks", why, fmt.Sprintf("%d marking sites", n), n)
+	}
 }
